@@ -14,6 +14,7 @@ import ast
 from sa import mutate as M
 from sa.consts import UNKNOWN
 from sa import pattern as PT
+from sa import values as VX
 from sa.ctx import Ctx
 from sa.layout import write_atoms
 from sa.loader import AnalysisError, FuncInfo, call_name, norm, own_nodes, parent
@@ -180,7 +181,10 @@ def rule_weight(ctx: Ctx, rep: Report) -> None:
             rep.ob(rule, f"WITNESS_SCALE_FACTOR@{modname}", v == 4, f"{ctx.module(modname).relpath}:1", f"WITNESS_SCALE_FACTOR = {v}")
     iw = ctx.func("btclib.tx.tx_in.input_weight")
     txt = PT.text(iw)
-    rep.ob(rule, "input_weight", "_serialized_size() * WITNESS_SCALE_FACTOR" in txt and "weight += witness._serialized_size()" in txt, iw.where(), "non-witness bytes x4 plus witness bytes x1")
+    vx = VX.of(iw)
+    rep.ob(rule, "input_weight", any(vx.returns(p_) for p_ in ("$$b._serialized_size() * WITNESS_SCALE_FACTOR + witness._serialized_size() if witness is not None else $$b._serialized_size() * WITNESS_SCALE_FACTOR",
+                                                               "WITNESS_SCALE_FACTOR * $$b._serialized_size() + witness._serialized_size() if witness is not None else WITNESS_SCALE_FACTOR * $$b._serialized_size()")),
+           iw.where(), "non-witness bytes x4 plus witness bytes x1")
 
 
 def rule_fee(ctx: Ctx, rep: Report) -> None:
@@ -205,7 +209,9 @@ def rule_fee(ctx: Ctx, rep: Report) -> None:
     rep.ob(rule, "dust:relay_rate", bool(dr) and norm(dr[0]) == "FeeRate(sats_per_kvbyte=3000)", f"{ctx.module(F).relpath}:1", "3000 sat/kvB")
     dt = ctx.func(f"{F}.dust_threshold")
     txt = PT.text(dt)
-    rep.ob(rule, "dust:size", "_TXOUT_VALUE_SIZE + len(var_int.serialize(len(script_pub_key))) + len(script_pub_key)" in txt and "_SEGWIT_SPEND_SIZE if is_segwit(script_pub_key) else _SPEND_SIZE" in txt, dt.where(), "8 + CompactSize + script + spend size by kind")
+    vx = VX.of(dt)
+    rep.ob(rule, "dust:size", vx.anywhere("_TXOUT_VALUE_SIZE + len(var_int.serialize(len($$spk))) + len($$spk) + (_SEGWIT_SPEND_SIZE if is_segwit($$spk) else _SPEND_SIZE)")
+           or vx.anywhere("_TXOUT_VALUE_SIZE + len(var_int.serialize(len($$spk))) + len($$spk) + _SEGWIT_SPEND_SIZE if is_segwit($$spk) else _TXOUT_VALUE_SIZE + len(var_int.serialize(len($$spk))) + len($$spk) + _SPEND_SIZE"), dt.where(), "8 + CompactSize + script + spend size by kind")
     rep.ob(rule, "dust:unspendable_zero", "OP_RETURN" in txt and "MAX_SCRIPT_SIZE" in txt, dt.where(), "unspendable outputs have no dust threshold")
 
 
